@@ -63,8 +63,9 @@ def parse_res_text(text, n):
                 continue
             if key == "CELL":
                 nums = [Fraction(t) * 10 ** 6 for t in toks[2:8]]
-                x["celloff"] = any(v.denominator != 1 for v in nums) or len(nums) != 6
-                x["cell"] = [int(v) for v in nums]
+                # a writer may keep more than six decimals: the value is taken to the nearest 1e-6 (TLC allows one unit)
+                x["celloff"] = len(nums) != 6
+                x["cell"] = [int(round(v)) for v in nums]
             elif key == "LATT":
                 x["latt"] = int(toks[1])
             elif key == "SYMM":
